@@ -352,6 +352,15 @@ T == octet.
 *******************************************************************************
 */
 
+#if defined(BEE2_VERIF) && defined(BEE2_VERIF_WORD)
+	#if (BEE2_VERIF_WORD == 16)
+		#undef U64_SUPPORT
+		#undef U128_SUPPORT
+	#elif (BEE2_VERIF_WORD == 32)
+		#undef U128_SUPPORT
+	#endif
+#endif
+
 #if defined(U128_SUPPORT)
 	#define B_PER_W 64
 	typedef u64 word;
